@@ -166,6 +166,11 @@ def run(ctx: Ctx) -> None:
     passthrough_rules(ctx, "C04.R3", only=["sync_paths", "fetch_paths"])
     rep.rule("C04.R5", "as C12.R1: the object cache holds a key only with evidence that the wrapped store holds it (else a path is committed to a key without blob)")
     insertion_rule(ctx, "C04.R5")
+    rep.rule("C04.R7", "as C08.R5: store_blob returns normally only after the commit marker is published (a path is never linked to an entry without metadata)")
+    S.store_always_publishes(ctx, v, "C04.R7")
+    rep.rule("C04.R8", "every path of a commit batch is committed: no early exit from the loop of sync_paths, in any store")
+    n8 = S.every_path_processed(ctx, "C04.R8")
+    rep.floor("C04.R8", n8, 2)
     from .c17 import codec_duals
     rep.rule("C04.R6", "as C17.R4/R5: every codec reads back what it wrote (binary mode, same encoding, dual operations): the value a committed path "
                        "serves equals the value keep returned")
